@@ -168,7 +168,9 @@ class Replayer:
             for i, (g, e) in enumerate(zip(r, exp)):
                 if isinstance(e, bool):         # a one bit field of the format with boolean requested: a real boolean
                     good = good and isinstance(g, bool) and g == e
-                else:                           # numbers (the one bit padding field may be rendered either way)
+                elif i < len(fmt):              # a field of the format: an unsigned integer, not a boolean
+                    good = good and isinstance(g, int) and not isinstance(g, bool) and g == e
+                else:                           # the padding field (a one bit padding field may be rendered either way)
                     good = good and isinstance(g, int) and g == e
         if not good:
             self.bad("unpackify", row, r, tuple(exp), what="boolean=%r %r" % (boolean, k))
